@@ -1,5 +1,5 @@
 (* C06 -- Pretty printing changes layout only (writer-level clauses).  Property theorems only. *)
-Require Import Base Token Lexer Tree SourceMap Writer Compile Parser Grammar WriterSpec RelexSpec WriterProofs PrettyProofs.
+Require Import Base Token Lexer Tree SourceMap Writer Compile Parser Grammar WriterSpec RelexSpec WriterProofs PrettyProofs TriviaProofs.
 Require Import Gen.Tables Gen.Printer.
 
 (* the semicolon option is read by the statement-terminator operation only: output
@@ -34,10 +34,14 @@ Theorem C06_pretty_round_trip : forall src toks p indent m,
 Proof. exact program_round_trip_pretty. Qed.
 Print Assumptions C06_pretty_round_trip.
 
-(* NOT STATED HERE: "formatting the formatted output reproduces it byte for byte"
-   (r_code (compile cfg (pr_program r)) = r_code (compile cfg p) under the hypotheses above).
-   As stated it is FALSE: for the source  x;//<TAB>  (bytes 120 59 47 47 9) all hypotheses hold,
-   the first formatting is "x; //" (TrimSpace removes the TAB of the trailing comment), and
-   formatting that gives "x;" (a comment with empty text is re-read as a blank-line marker).
-   It needs the extra hypothesis that no comment of a lexed token is non-empty yet made only
-   of space bytes; that corrected clause is not proved. *)
+(* IDEMPOTENCE: formatting the formatted output reproduces it byte for byte (same
+   hypotheses).  A first proof attempt found the counterexample  x;//<TAB>  (a comment made
+   only of white space at the end of the input), repaired in /repo by fix 8063bcf: the lexer
+   drops all trailing white space of a comment. *)
+Theorem C06_idempotent : forall src toks p indent m,
+  tokenize src = Some toks -> strings_stable toks = true -> literals_trim_safe toks = true ->
+  m_program p toks = true -> wf_program p = true -> blank_str indent ->
+  exists r, reparse (cfg_pretty indent true m) p = Some r /\
+            r_code (compile (cfg_pretty indent true m) (pr_program r)) = r_code (compile (cfg_pretty indent true m) p).
+Proof. exact pretty_idempotent. Qed.
+Print Assumptions C06_idempotent.
